@@ -501,6 +501,29 @@ func (t *taskManager) waitAll() ([]*task, error) {
 	}
 }
 
+// discardRest is called when the run returns its result while tasks are still running or not yet
+// collected (eager execution: END became ready, the remaining nodes do not feed it). Nobody is going
+// to read what these tasks produce: they are collected in the background and their output streams
+// are closed, which releases the producers behind them.
+func (t *taskManager) discardRest() {
+	if t.num == 0 {
+		return
+	}
+	n := t.num
+	t.num = 0
+	go func() {
+		for ; n > 0; n-- {
+			ta := <-t.done
+			verifPoint(6, t, ta)
+			t.mu.Lock()
+			t.updateChan()
+			t.mu.Unlock()
+			verifPoint(7, t, ta)
+			closeIfStream(ta.output)
+		}
+	}()
+}
+
 func (t *taskManager) updateChan() {
 	for t.l.Len() > 0 {
 		select {
